@@ -3,6 +3,7 @@ package sim
 import (
 	"fmt"
 	"path/filepath"
+	"strings"
 
 	"verifharness/proto"
 	"verifharness/simrt"
@@ -179,7 +180,11 @@ func SimC04(c *CheckCtx, i int, r *Rng) error {
 		pi := Pick(r, eps)
 		tmp := filepath.Join(m.Pkgs[pi].Dir, base+"."+g+".go.tmp")
 		faulty := mkRun(asc, args.Entrypoint, true)
-		faulty.Faults = []proto.Fault{{ExecSeq: -1, Kind: Pick(r, []string{"os.open", "os.write"}), Path: tmp, Phase: "exec", Nth: 0, Do: Pick(r, []string{"errno:EISDIR", "errno:ENOSPC", "errno:EACCES"})}}
+		kind := Pick(r, []string{"os.open", "os.write", "os.rename"})
+		faulty.Faults = []proto.Fault{{ExecSeq: -1, Kind: kind, Path: tmp, Phase: "exec", Nth: 0, Do: "errno:" + Pick(r, errnosFor(kind))}}
+		if kind == "os.rename" {
+			faulty.Faults[0].Path = tmp + " -> " + strings.TrimSuffix(tmp, ".tmp")
+		}
 		again := mkRun(asc, args.Entrypoint, false) // not forced: a failed run must not have been recorded as done
 		sc.Variants = append(sc.Variants, Variant{Name: "eventual:io-fault", Ops: []Op{{Kind: "run", Run: faulty}, {Kind: "run", Run: again}}})
 		// the caller gives up (cancels its context) while a callback is running, then runs again in the
